@@ -169,22 +169,150 @@ def w_udp(idx: int, seed: int, thorough: bool) -> Part:
     return part
 
 
+# ---- the two secure transports: the same obligations with an authentic SecureWrapper around every kind of inner frame ----
+
+INNER: dict[str, tuple[bytes, bool]] = {k: (v[0], v[1]) for k, v in KINDS.items()}
+INNER.update({
+    "listed-but-unimplemented-service": (bytes.fromhex("0610053300081122"), False),     # ROUTING_SYSTEM_BROADCAST: in the enumeration, no body class
+    "secure-service-inside": (bytes.fromhex("06100955000f") + bytes(9), False),          # a TimerNotify-sized secure service inside a wrapper
+    "empty": (b"", False),
+    "three-octets": (b"\x06\x10\x04", False),
+    "announced-longer-than-wrapped": (bytes.fromhex("06100421000c0407"), False),
+})
+INNER_ORDER = list(INNER)
+SEC_KEY = bytes(range(16, 32))
+PEER_SERIAL = bytes.fromhex("00fa12345678")
+
+
+def wrapper(form: str, sid: int, seq: int, inner: bytes) -> bytes:
+    from ..ref import ipsec
+
+    raw = ipsec.wrap(SEC_KEY, sid ^ (1 if form == "other-session-id" else 0), seq.to_bytes(6, "big"), PEER_SERIAL, b"\x12\x34", inner)
+    if form == "mac-altered":
+        raw = raw[:-1] + bytes((raw[-1] ^ 1,))
+    return raw
+
+
+FORMS = ("authentic", "mac-altered", "other-session-id")
+
+
+def secure_group_case(names: tuple[str, ...], forms: tuple[str, ...]) -> list[tuple[str, str]]:
+    """Datagrams through SecureGroup.data_received_callback (timer authenticated, wrappers carry the current timer value)."""
+    from xknx.io.ip_secure import SecureGroup
+
+    from ..vloop import World
+
+    viols: list[tuple[str, str]] = []
+    with World() as w:
+        w.loop._vtime = 5000.0  # noqa: SLF001
+        g = SecureGroup(("192.168.1.2", 0), ("224.0.23.12", 3671), SEC_KEY)
+        try:
+            g.secure_timer.timer_authenticated = True
+            got: list[bytes] = []
+            g.register_callback(lambda f, src, t: got.append(f.to_knx()))
+            want = []
+            for i, (name, form) in enumerate(zip(names, forms)):
+                inner, ok = INNER[name]
+                raw = wrapper(form, 0, g.secure_timer.current_timer_value() + 1 + i, inner)
+                if ok and form == "authentic":
+                    want.append(inner)
+                try:
+                    g.data_received_callback(raw, ("192.168.1.77", 3671))
+                except BaseException as exc:  # noqa: BLE001
+                    viols.append((exc_sig(f"udp-secure-escape:{form}:{name}", exc), f"SecureGroup, datagram #{i} = {form} wrapper around {name} ({inner.hex()}): {exc!r}"))
+            if not viols and got != want:
+                viols.append((f"udp-secure-delivery-differs:{'+'.join(sorted(set(forms)))}", f"SecureGroup datagrams {list(zip(forms, names))}: delivered {[x.hex() for x in got]}, reference {[x.hex() for x in want]}"))
+        finally:
+            g.secure_timer.stop() if hasattr(g.secure_timer, "stop") else None
+    return viols
+
+
+def secure_session_case(names: tuple[str, ...], forms: tuple[str, ...], cuts: tuple[int, ...], initialized: bool = True) -> list[tuple[str, str]]:
+    """A TCP stream of wrappers through SecureSession.data_received_callback under one chunking."""
+    from xknx.io.ip_secure import SecureSession
+
+    from ..vloop import World
+
+    viols: list[tuple[str, str]] = []
+    with World():
+        s = SecureSession(remote_addr=("192.168.1.1", 3671), user_id=2, user_password="secret")
+        s._key = SEC_KEY  # noqa: SLF001
+        s.session_id = 5
+        s.initialized = initialized
+        got: list[bytes] = []
+        s.register_callback(lambda f, src, t: got.append(f.to_knx()))
+        want = []
+        stream = b""
+        for i, (name, form) in enumerate(zip(names, forms)):
+            inner, ok = INNER[name]
+            stream += wrapper(form, 5, i, inner)
+            if ok and form == "authentic" and initialized:
+                want.append(inner)
+        tag = "+".join(sorted(set(forms))) + ("" if initialized else ":not-initialized")
+        try:
+            for c in split(stream, cuts):
+                s.data_received_callback(c)
+        except BaseException as exc:  # noqa: BLE001
+            viols.append((exc_sig(f"tcp-secure-escape:{tag}", exc), f"SecureSession, stream {list(zip(forms, names))} cut at {cuts}: {exc!r}"))
+        if not viols and got != want:
+            kind = "lost" if len(got) < len(want) else ("duplicated" if len(got) > len(want) else "reordered-or-garbled")
+            viols.append((f"tcp-secure-delivery-{kind}:{tag}", f"SecureSession, stream {list(zip(forms, names))} cut at {cuts}: delivered {[x.hex() for x in got]}, reference {[x.hex() for x in want]}"))
+    return viols
+
+
+def w_secure(idx: int, n_units: int) -> Part:
+    part = Part()
+    j = 0
+    for n in (1, 2):
+        for names in itertools.product(INNER_ORDER, repeat=n):
+            for forms in itertools.product(FORMS, repeat=n):
+                j += 1
+                if j % n_units != idx:
+                    continue
+                part.evaluations += 1
+                part.nontrivial += 1
+                for sig, detail in secure_group_case(names, forms):
+                    part.viol(sig, detail, {"secure": "group", "names": list(names), "forms": list(forms)}, rank=(n,))
+                total = sum(38 + len(INNER[x][0]) for x in names)
+                # chunkings: whole, every single cut, octet-wise
+                for cuts in [(), *[(a,) for a in range(1, total)], tuple(range(1, total))]:
+                    if n == 2 and len(cuts) == 1 and cuts[0] % 3 and cuts[0] not in (38 + len(INNER[names[0]][0]),):
+                        continue   # two-wrapper streams: every third cut position plus the frame border
+                    for init in (True, False):
+                        if not init and cuts not in ((), tuple(range(1, total))):
+                            continue
+                        part.evaluations += 1
+                        viols = secure_session_case(names, forms, cuts, init)
+                        part.outcomes["bad" if viols else "ok"] += 1
+                        for sig, detail in viols:
+                            part.viol(sig, detail, {"secure": "session", "names": list(names), "forms": list(forms), "cuts": list(cuts), "init": init}, rank=(n, len(cuts)))
+    return part
+
+
 def run(ctx: Ctx) -> None:
     ctx.rule = (
         f"TCP: every stream of <=3 frames over {ORDER} (399 streams) through a fresh real TCPTransport.data_received_callback; EVERY chunking for streams of "
         f"<= {22 if ctx.thorough else 18} octets, every set of <=2 cut points plus octet-by-octet for longer ones; bursts of 1..4096 frames in one chunk. Oracle: no exception; "
         "delivered frames == the well-formed frames of the stream, once, in order (frames after a header whose announced length is below 6 are don't-care). "
         "The same streams with a consumer that refuses one delivered frame (every position) with CouldNotParseKNXIP, under every chunking with <=2 cut points and octet-wise: the other frames are unaffected. "
-        "UDP: every datagram of the C20 structured space through UDPTransport.data_received_callback. non-trivial = chunked deliveries / datagrams that reached a callback"
+        "UDP: every datagram of the C20 structured space through UDPTransport.data_received_callback. "
+        f"Secure transports: every sequence of <=2 SecureWrappers (forms {FORMS}, built by the reference implementation) around each of {len(INNER)} inner frames "
+        "(the TCP kinds plus a listed-but-unimplemented service, a secure service inside, empty/truncated/over-announced inner frames) as datagrams through the real SecureGroup (timer authenticated) "
+        "and as a TCP stream through the real SecureSession (initialised and not) under whole / single-cut / octet-wise chunkings: no exception; exactly the authentic well-formed inner frames are delivered, in order. non-trivial = chunked deliveries / datagrams that reached a callback"
     )
     units = 64
     ctx.pmap(w_streams, [(i, units, ctx.thorough) for i in range(units)])
     ctx.pmap(w_burst, [(n,) for n in (1, 10, 100, 1000, 4096)])
     ctx.pmap(w_udp, [(i, ctx.seed, ctx.thorough) for i in range(len(valid_frames()))])
+    ctx.pmap(w_secure, [(i, 32) for i in range(32)])
     ctx.bounds = {"streams": 399, "frame_kinds": ORDER, "bursts": [1, 10, 100, 1000, 4096]}
 
 
 def replay(case: Any) -> list[tuple[str, str]]:
+    if case.get("secure") == "group":
+        return secure_group_case(tuple(case["names"]), tuple(case["forms"]))
+    if case.get("secure") == "session":
+        return secure_session_case(tuple(case["names"]), tuple(case["forms"]), tuple(case["cuts"]), case["init"])
     if "kinds" in case:
         return check_stream(tuple(case["kinds"]), tuple(case["cuts"]), case.get("reject"))
     if "burst" in case:
